@@ -24,7 +24,7 @@ Styles == {"inline", "defs", "nested"}
 
 TypeDescr(k1, t1, k2, t2) == [k1 |-> k1, t1 |-> t1, k2 |-> k2, t2 |-> t2]
 Types == {TypeDescr(k, t, "-", "-") : k \in FieldKinds, t \in TagClasses}
-    \cup {TypeDescr(a, "none", b, "renamed") : a \in {"string", "struct", "embedded", "ptr-struct", "self-ptr"}, b \in FieldKinds}
+    \cup {TypeDescr(a, "none", b, "renamed") : a \in {"string", "struct", "embedded", "ptr-struct", "self-ptr", "slice-struct", "map-struct"}, b \in FieldKinds}
 
 VARIABLES ty, style, checked
 vars == <<ty, style, checked>>
